@@ -87,6 +87,7 @@ func (w *World) All() []Obj {
 	add("BaseState/policy", false, w.State(2))
 	add("Manifest", false, w.Manifest(w.Height(), w.optHash()))
 	add("BlockMap", true, w.BlockMap(w.Manifest(w.Height(), w.optHash())))
+	add("BlockMap/all-item-types", true, w.BlockMapWith(w.Manifest(w.Height(), w.optHash()), true))
 	add("SuffrageProof", true, w.SuffrageProof())
 
 	os = append(os, w.others()...)
